@@ -159,6 +159,9 @@ class Tracker:
                     W = state["w"]
                 else:
                     W = force.variables["w"]
+                # Backward tracking follows the flow in the opposite direction
+                if getattr(self.modules["time"], "time_reversal", False):
+                    W = -W
                 Z += W * self.dt
 
             # Reflexive boundary conditions at surface
